@@ -400,6 +400,12 @@ class Ctx:
             if rej:
                 self.cov["untranslatable"] = rej
         ok, log = coq_make(["Props/%s.vo" % pid] + list(extra_targets))
+        if pid in GEN_USERS:
+            # T3 for T2: the translated functions evaluated in Coq vs the compiled functions, and the property's
+            # oracle on the compiled functions (needs only Gen/GoFuncs.vo, not the proofs)
+            import golite_tie
+            coq_make(["Gen/GoFuncs.vo"])
+            golite_tie.run(self)
         bad = hygiene()
         if bad:
             self.proof_broken = {"lemma": "hygiene", "message": "; ".join(bad[:10])}
